@@ -100,12 +100,23 @@ def report_part(res, rng, mult):
     framing.run_both(res, "sanitise", scases)
 
 
+_ports_lock = threading.Lock()
+_ports_used = set()
+
+
 def free_port():
-    s = socket.socket()
-    s.bind(("127.0.0.1", 0))
-    p = s.getsockname()[1]
-    s.close()
-    return p
+    """A loopback port that is free now and that this process has not handed out before (relay_part and
+    stall_part run side by side, each with its own proxy)."""
+    with _ports_lock:
+        for _ in range(200):
+            s = socket.socket()
+            s.bind(("127.0.0.1", 0))
+            p = s.getsockname()[1]
+            s.close()
+            if p not in _ports_used:
+                _ports_used.add(p)
+                return p
+        raise RuntimeError("no free port")
 
 
 class Upstream(threading.Thread):
@@ -122,6 +133,7 @@ class Upstream(threading.Thread):
         self.received = bytearray()
         self.lock = threading.Lock()
         self.stop = False
+        self.stall = 0.0      # seconds during which an accepted connection is not read from (a peer that is busy)
 
     def run(self):
         while not self.stop:
@@ -141,6 +153,8 @@ class Upstream(threading.Thread):
                 except OSError:
                     pass
             threading.Thread(target=sender, daemon=True).start()
+            if self.stall:
+                time.sleep(self.stall)
             conn.settimeout(0.5)
             while not self.stop:
                 try:
@@ -336,12 +350,114 @@ def relay_part(res, rng, nsessions):
         shutil.rmtree(wd, ignore_errors=True)
 
 
+def stall_part(res, rng, stalls):
+    """Sessions in which each peer stops reading for some seconds while the other side sends more than the socket
+    buffers hold (a caster or client that is busy), then reads everything: the relay may block, it may not drop,
+    reorder or give up.  Own proxy instance, so that it can run beside relay_part."""
+    okb, outb, binary = common.build_app("proxy")
+    if not okb:
+        return
+    wd = os.path.join(common.WORK, "C19stall")
+    shutil.rmtree(wd, ignore_errors=True)
+    os.makedirs(os.path.join(wd, "logs"))
+    up = Upstream()
+    up.start()
+    pport, cport = free_port(), free_port()
+    cfg = os.path.join(wd, "proxy.json")
+    with open(cfg, "w") as f:
+        json.dump(dict(remote_host="127.0.0.1:%d" % up.port, proxy_host="127.0.0.1", proxy_port=pport,
+                       control_host="127.0.0.1", control_port=cport, record_messages=True,
+                       message_log_directory=os.path.join(wd, "logs")), f)
+    proc = subprocess.Popen([binary, "-c", cfg], cwd=wd, stdout=subprocess.DEVNULL, stderr=subprocess.DEVNULL)
+    try:
+        for _ in range(100):
+            try:
+                socket.create_connection(("127.0.0.1", pport), timeout=0.2).close()
+                break
+            except OSError:
+                time.sleep(0.05)
+        time.sleep(0.3)
+        for stall in stalls:
+            size = 6 * 1024 * 1024
+            frames = b"".join(gen.rand_frame(rng, small=True) for _ in range(40))
+            cdata = (frames + gen.rand_bytes(rng, 4096)) * (size // (len(frames) + 4096) + 1)
+            sdata = gen.rand_bytes(rng, 65536) * (size // 65536)
+            with up.lock:
+                up.script = [sdata[i:i + 65536] for i in range(0, len(sdata), 65536)]
+                up.received.clear()
+                up.stall = stall
+            res.evaluations += 1
+            res.count("relay session with both peers not reading for %g s" % stall)
+            case = dict(kind="stalled peers", stall_s=stall, client_bytes=len(cdata), server_bytes=len(sdata))
+            try:
+                cl = socket.create_connection(("127.0.0.1", pport), timeout=3)
+            except OSError as e:
+                res.add_violation(dict(case, error=str(e)), "the proxy no longer accepts clients")
+                break
+            got = bytearray()
+
+            def rd():
+                time.sleep(stall)
+                cl.settimeout(0.5)
+                t_end = time.time() + 40
+                while time.time() < t_end and len(got) < len(sdata):
+                    try:
+                        b = cl.recv(1 << 20)
+                    except socket.timeout:
+                        continue
+                    except OSError:
+                        break
+                    if not b:
+                        break
+                    got.extend(b)
+            t = threading.Thread(target=rd, daemon=True)
+            t.start()
+            try:
+                cl.settimeout(60)
+                cl.sendall(cdata)
+            except OSError as e:
+                res.add_violation(dict(case, error=str(e)), "sending through the proxy failed")
+            t_end = time.time() + 40
+            while time.time() < t_end:
+                with up.lock:
+                    n = len(up.received)
+                if n >= len(cdata):
+                    break
+                time.sleep(0.05)
+            t.join(timeout=45)
+            time.sleep(0.3)
+            with up.lock:
+                recvd = bytes(up.received)
+                up.stall = 0.0
+            if recvd != cdata:
+                res.add_violation(dict(case, server_received=len(recvd), first_difference=next((k for k in range(min(len(recvd), len(cdata))) if recvd[k] != cdata[k]), min(len(recvd), len(cdata))),
+                                       proxy_alive=proc.poll() is None),
+                                  "the upstream server did not receive exactly the client's bytes (it stopped reading for a while)")
+            if bytes(got) != sdata:
+                res.add_violation(dict(case, client_received=len(got), first_difference=next((k for k in range(min(len(got), len(sdata))) if got[k] != sdata[k]), min(len(got), len(sdata)))),
+                                  "the client did not receive exactly the server's bytes (it stopped reading for a while)")
+            res.nontrivial.add(("stalled", stall))
+            try:
+                cl.close()
+            except OSError:
+                pass
+            time.sleep(0.3)
+    finally:
+        up.stop = True
+        proc.kill()
+        try:
+            proc.wait(timeout=5)
+        except Exception:
+            pass
+        shutil.rmtree(wd, ignore_errors=True)
+
+
 def run(res, args):
     res.rule = ("report: ReportFeed.Status() in-process with crafted client/server buffers and queue contents (frames and "
                 "non-RTCM data whose bytes read as HTML); every traffic-derived hole of the page template must be free of '<' "
                 "and '>' and the message list must be the escaped displays; relay: the built proxy binary between a test "
                 "upstream server and a test client on loopback, sessions of valid frames, CRC-valid malformed frames, "
-                "mixed/hostile bytes, NTRIP-like text, many chunkings, both directions; non-trivial = markup bytes in the "
+                "mixed/hostile bytes, NTRIP-like text, many chunkings, both directions; sessions of 6 MB each way in which both peers stop reading for 6-13 s and then read everything; non-trivial = markup bytes in the "
                 "traffic / sessions over 50 bytes")
     res.assumptions = ["TCP, TLS and statusreporter are the runtime; one client session at a time",
                        "relay integrity depends on the parser never panicking (C07); the dependency is explicit"]
@@ -352,6 +468,10 @@ def run(res, args):
     rng = common.rng_for(res.seed, "c19")
     mult = 1 if res.tier == "quick" else 16
     report_part(res, rng, mult)
+    rng_stall = common.rng_for(res.seed, "c19stall")
+    st = threading.Thread(target=stall_part, args=(res, rng_stall, [7] if res.tier == "quick" else [6, 9, 13]))
+    st.start()
     relay_part(res, rng, 40 * mult)
+    st.join(timeout=400)
     res.traces = res.distribution.get("relay-session", 0)
     return res.finish()
